@@ -57,6 +57,8 @@ struct Ledger {
     commands: u64,
     /// every command the outstation application executed: (type, index, value)
     executed: Vec<(usize, u16, f64)>,
+    /// values of `counter` at which a database transaction ended: the only states a READ can observe
+    txn_ends: BTreeSet<u64>,
 }
 
 type Shared = Arc<Mutex<Ledger>>;
@@ -202,6 +204,8 @@ impl Controls {
             g.commands += 1;
             g.executed.push((t, index, value));
             write_point(db, &mut g, rng, t, index, Some(value), false);
+            let c = g.counter;
+            g.txn_ends.insert(c);
         });
         CommandStatus::Success
     }
@@ -588,6 +592,8 @@ async fn scenario(a: &ShardArgs, idx: u64) {
                     write_point(db, &mut g, &mut rr, t, i, None, false);
                 }
             }
+            let c = g.counter;
+            g.txn_ends.insert(c);
         });
     }
     let server_handle = match server.bind().await {
@@ -691,14 +697,19 @@ async fn scenario(a: &ShardArgs, idx: u64) {
     let busy_ms = r.range(200, 700);
     let stop_updates = Arc::new(AtomicBool::new(false));
     let updates_done = Arc::new(AtomicU64::new(0));
+    // while a multi-header READ is outstanding the updaters commit back to back (bounded), so that a selection that
+    // is not one critical section would be caught between two of them
+    let burst = Arc::new(AtomicBool::new(false));
     let mut threads = vec![];
     for k in 0..2u64 {
         let h = outstation.clone();
         let led = led.clone();
         let stopf = stop_updates.clone();
         let done = updates_done.clone();
+        let burst = burst.clone();
         let mut rr = Rng::new(r.u64() ^ k);
         threads.push(std::thread::spawn(move || {
+            let mut in_burst = 0u32;
             while !stopf.load(Ordering::SeqCst) {
                 let n = 1 + rr.usize_below(4);
                 h.transaction(|db| {
@@ -710,8 +721,18 @@ async fn scenario(a: &ShardArgs, idx: u64) {
                         let quiet = static_only && rr.chance(1, 4);
                         write_point(db, &mut g, &mut rr, t, i, None, quiet);
                     }
+                    let c = g.counter;
+                    g.txn_ends.insert(c);
                 });
                 done.fetch_add(n as u64, Ordering::Relaxed);
+                if burst.load(Ordering::Relaxed) && in_burst < 1500 {
+                    in_burst += 1;
+                    std::thread::yield_now();
+                    continue;
+                }
+                if !burst.load(Ordering::Relaxed) {
+                    in_burst = 0;
+                }
                 std::thread::sleep(Duration::from_micros(500 + rr.below(6000)));
             }
         }));
@@ -798,7 +819,37 @@ async fn scenario(a: &ShardArgs, idx: u64) {
                     t_stim.elapsed().as_millis()
                 ));
             }
-            _ => {}
+            _ => {
+                if r.chance(1, 2) {
+                    // a READ with one static header per type: the selection of all of them is one instant (C11 torn_snapshot)
+                    let hs: Vec<ReadHeader> = [
+                        Variation::Group1Var0,
+                        Variation::Group3Var0,
+                        Variation::Group10Var0,
+                        Variation::Group20Var0,
+                        Variation::Group21Var0,
+                        Variation::Group30Var0,
+                        Variation::Group40Var0,
+                    ]
+                    .iter()
+                    .map(|v| ReadHeader::all_objects(*v))
+                    .collect();
+                    burst.store(true, Ordering::Relaxed);
+                    let res = tokio::time::timeout(
+                        Duration::from_secs(5),
+                        assoc.read(ReadRequest::multiple_headers(&hs)),
+                    )
+                    .await;
+                    burst.store(false, Ordering::Relaxed);
+                    if matches!(res, Ok(Ok(()))) {
+                        out::count("multi_header_static_reads_ok", 1);
+                    }
+                    hist.push(format!(
+                        "+{}ms READ of seven static groups -> {res:?}",
+                        t_stim.elapsed().as_millis()
+                    ));
+                }
+            }
         }
         tokio::time::sleep(Duration::from_millis(r.range(5, 60))).await;
     }
@@ -827,14 +878,72 @@ async fn scenario(a: &ShardArgs, idx: u64) {
     ));
     // ---- wait for convergence
     let mut log: Vec<Rec> = vec![];
+    // static records grouped by the response series (FIR .. FIN, consecutive sequence numbers) that carried them
+    let mut frag_statics: Vec<Vec<Rec>> = vec![];
+    let mut open_frag: Option<Vec<Rec>> = None;
+    let mut series: Vec<Rec> = vec![];
+    let mut series_next: Option<u8> = None;
+    let mut cur_seq = 0u8;
+    let mut cur_ctl = (true, true, false);
     let deadline = Instant::now() + Duration::from_secs(40);
     let mut converged = false;
     let mut why_not = String::new();
     let t_stop = Instant::now();
     loop {
         for it in rec.take() {
-            if let Item::M(r) = it {
-                log.push(r);
+            match it {
+                Item::M(r) => {
+                    if !r.is_event {
+                        if let Some(f) = &mut open_frag {
+                            f.push(r.clone());
+                        }
+                    }
+                    log.push(r);
+                }
+                Item::Begin(_, sq) => {
+                    open_frag = Some(vec![]);
+                    cur_seq = sq;
+                }
+                Item::Ctl(fir, fin, uns) => cur_ctl = (fir, fin, uns),
+                Item::End(..) => {
+                    let f = open_frag.take().unwrap_or_default();
+                    let (fir, fin, uns) = cur_ctl;
+                    if uns {
+                        continue;
+                    }
+                    // a fragment continues the series only with the expected sequence number and without FIR
+                    if fir || series_next != Some(cur_seq) {
+                        if series.len() >= 2 {
+                            frag_statics.push(std::mem::take(&mut series));
+                        }
+                        series.clear();
+                        if !fir {
+                            // the head of this series was never delivered (e.g. the master joined late): judge it alone
+                            series_next = None;
+                        }
+                    }
+                    if series.len() + f.len() > 0 {
+                        out::count(
+                            if fir {
+                                "snapshot_first_fragments"
+                            } else {
+                                "snapshot_later_fragments"
+                            },
+                            1,
+                        );
+                    }
+                    series.extend(f);
+                    if fin {
+                        if series.len() >= 2 {
+                            frag_statics.push(std::mem::take(&mut series));
+                        }
+                        series.clear();
+                        series_next = None;
+                    } else {
+                        series_next = Some((cur_seq + 1) & 0x0F);
+                    }
+                }
+                _ => {}
             }
         }
         // evaluate
@@ -940,6 +1049,68 @@ async fn scenario(a: &ShardArgs, idx: u64) {
                     } else {
                         out::count("records_match_history", 1);
                     }
+                }
+            }
+        }
+        // one instant: the static objects of one response fragment were all selected under one acquisition of the database
+        // mutex, so some state between two transactions must show every one of them (C11 under real threads:
+        // "the value it had when the request was processed")
+        for f in &frag_statics {
+            // candidate instants = transaction boundaries; narrow them point by point
+            let mut feasible: Vec<u64> = g.txn_ends.iter().copied().collect();
+            let mut culprit: Option<&Rec> = None;
+            for rc in f {
+                let Some(t) = PTYPES.iter().position(|p| *p == rc.ptype) else {
+                    continue;
+                };
+                let Some(hs) = g.hist.get(&(t, rc.index)) else {
+                    continue;
+                };
+                // intervals of the ledger counter during which the point showed this value
+                let mut spans: Vec<(u64, u64)> = vec![];
+                for (k, h) in hs.iter().enumerate() {
+                    if matches_hist(rc, h, t) {
+                        let from = h.time - 1_000_000;
+                        let to = hs.get(k + 1).map(|n| n.time - 1_000_000).unwrap_or(u64::MAX);
+                        spans.push((from, to));
+                    }
+                }
+                if spans.is_empty() {
+                    // judged by the provenance rule above
+                    feasible.clear();
+                    culprit = None;
+                    break;
+                }
+                let before = feasible.len();
+                feasible.retain(|b| spans.iter().any(|(lo, hi)| lo <= b && b < hi));
+                if feasible.is_empty() && before > 0 {
+                    culprit = Some(rc);
+                    break;
+                }
+            }
+            if let Some(rc) = culprit {
+                out::violation(
+                    "C11",
+                    "C11.torn_snapshot",
+                    &format!("{:?}", rc.ptype),
+                    J::obj(vec![
+                        ("why", J::s(format!("the static objects of one response series do not belong to any single state of the database between two transactions; the set became inconsistent at {rc:?}"))),
+                        ("fragment", J::arr(f.iter().map(|r| format!("{:?}[{}]={:?} flags {:#04x}", r.ptype, r.index, r.val, r.flags)))),
+                        ("history", J::arr(hist.iter().cloned())),
+                    ]),
+                    J::obj(vec![
+                        ("check", J::s("c02")),
+                        ("seed", J::U(a.seed)),
+                        ("shard", J::U(a.shard)),
+                        ("nshards", J::U(a.nshards)),
+                        ("scenario", J::U(idx)),
+                    ]),
+                );
+            } else if !feasible.is_empty() {
+                out::count("snapshot_fragments_consistent", 1);
+                out::count("snapshot_objects_checked", f.len() as u64);
+                if feasible.len() == 1 {
+                    out::count("snapshot_instant_unique", 1);
                 }
             }
         }
